@@ -16,6 +16,9 @@ Gen/Consts.vos Gen/Consts.vok Gen/Consts.required_vos: Gen/Consts.v
 Gen/Enums.vo Gen/Enums.glob Gen/Enums.v.beautified Gen/Enums.required_vo: Gen/Enums.v 
 Gen/Enums.vio: Gen/Enums.v 
 Gen/Enums.vos Gen/Enums.vok Gen/Enums.required_vos: Gen/Enums.v 
+Gen/Gates.vo Gen/Gates.glob Gen/Gates.v.beautified Gen/Gates.required_vo: Gen/Gates.v 
+Gen/Gates.vio: Gen/Gates.v 
+Gen/Gates.vos Gen/Gates.vok Gen/Gates.required_vos: Gen/Gates.v 
 Gen/Layouts.vo Gen/Layouts.glob Gen/Layouts.v.beautified Gen/Layouts.required_vo: Gen/Layouts.v Base/Layout.vo
 Gen/Layouts.vio: Gen/Layouts.v Base/Layout.vio
 Gen/Layouts.vos Gen/Layouts.vok Gen/Layouts.required_vos: Gen/Layouts.v Base/Layout.vos
@@ -25,6 +28,9 @@ Model/AlignedStream.vos Model/AlignedStream.vok Model/AlignedStream.required_vos
 Model/Chain.vo Model/Chain.glob Model/Chain.v.beautified Model/Chain.required_vo: Model/Chain.v Base/Plan.vo
 Model/Chain.vio: Model/Chain.v Base/Plan.vio
 Model/Chain.vos Model/Chain.vok Model/Chain.required_vos: Model/Chain.v Base/Plan.vos
+Model/Gates.vo Model/Gates.glob Model/Gates.v.beautified Model/Gates.required_vo: Model/Gates.v Base/Plan.vo Gen/Consts.vo
+Model/Gates.vio: Model/Gates.v Base/Plan.vio Gen/Consts.vio
+Model/Gates.vos Model/Gates.vok Model/Gates.required_vos: Model/Gates.v Base/Plan.vos Gen/Consts.vos
 Model/Hds.vo Model/Hds.glob Model/Hds.v.beautified Model/Hds.required_vo: Model/Hds.v Base/Plan.vo Base/Table.vo Gen/Consts.vo
 Model/Hds.vio: Model/Hds.v Base/Plan.vio Base/Table.vio Gen/Consts.vio
 Model/Hds.vos Model/Hds.vok Model/Hds.required_vos: Model/Hds.v Base/Plan.vos Base/Table.vos Gen/Consts.vos
@@ -55,6 +61,9 @@ Proofs/BlockMapped.vos Proofs/BlockMapped.vok Proofs/BlockMapped.required_vos: P
 Proofs/Chain.vo Proofs/Chain.glob Proofs/Chain.v.beautified Proofs/Chain.required_vo: Proofs/Chain.v Base/Plan.vo Model/Chain.vo
 Proofs/Chain.vio: Proofs/Chain.v Base/Plan.vio Model/Chain.vio
 Proofs/Chain.vos Proofs/Chain.vok Proofs/Chain.required_vos: Proofs/Chain.v Base/Plan.vos Model/Chain.vos
+Proofs/Gates.vo Proofs/Gates.glob Proofs/Gates.v.beautified Proofs/Gates.required_vo: Proofs/Gates.v Base/Plan.vo Model/Gates.vo Gen/Consts.vo Gen/Gates.vo
+Proofs/Gates.vio: Proofs/Gates.v Base/Plan.vio Model/Gates.vio Gen/Consts.vio Gen/Gates.vio
+Proofs/Gates.vos Proofs/Gates.vok Proofs/Gates.required_vos: Proofs/Gates.v Base/Plan.vos Model/Gates.vos Gen/Consts.vos Gen/Gates.vos
 Proofs/Hds.vo Proofs/Hds.glob Proofs/Hds.v.beautified Proofs/Hds.required_vo: Proofs/Hds.v Base/Arith.vo Base/Plan.vo Base/Table.vo Model/Hds.vo Proofs/BlockMapped.vo
 Proofs/Hds.vio: Proofs/Hds.v Base/Arith.vio Base/Plan.vio Base/Table.vio Model/Hds.vio Proofs/BlockMapped.vio
 Proofs/Hds.vos Proofs/Hds.vok Proofs/Hds.required_vos: Proofs/Hds.v Base/Arith.vos Base/Plan.vos Base/Table.vos Model/Hds.vos Proofs/BlockMapped.vos
@@ -103,3 +112,6 @@ Props/C07.vos Props/C07.vok Props/C07.required_vos: Props/C07.v Base/Plan.vos Ba
 Props/C08.vo Props/C08.glob Props/C08.v.beautified Props/C08.required_vo: Props/C08.v Base/Plan.vo Base/Table.vo Model/AlignedStream.vo Proofs/AlignedStream.vo Model/Lru.vo Proofs/Lru.vo Proofs/StreamReaders.vo Model/Vhd.vo Proofs/Vhd.vo Model/Vdi.vo Proofs/Vdi.vo Model/Vhdx.vo Proofs/Vhdx.vo Model/Hds.vo Proofs/Hds.vo
 Props/C08.vio: Props/C08.v Base/Plan.vio Base/Table.vio Model/AlignedStream.vio Proofs/AlignedStream.vio Model/Lru.vio Proofs/Lru.vio Proofs/StreamReaders.vio Model/Vhd.vio Proofs/Vhd.vio Model/Vdi.vio Proofs/Vdi.vio Model/Vhdx.vio Proofs/Vhdx.vio Model/Hds.vio Proofs/Hds.vio
 Props/C08.vos Props/C08.vok Props/C08.required_vos: Props/C08.v Base/Plan.vos Base/Table.vos Model/AlignedStream.vos Proofs/AlignedStream.vos Model/Lru.vos Proofs/Lru.vos Proofs/StreamReaders.vos Model/Vhd.vos Proofs/Vhd.vos Model/Vdi.vos Proofs/Vdi.vos Model/Vhdx.vos Proofs/Vhdx.vos Model/Hds.vos Proofs/Hds.vos
+Props/C12.vo Props/C12.glob Props/C12.v.beautified Props/C12.required_vo: Props/C12.v Base/Plan.vo Model/Gates.vo Proofs/Gates.vo Gen/Consts.vo Gen/Gates.vo
+Props/C12.vio: Props/C12.v Base/Plan.vio Model/Gates.vio Proofs/Gates.vio Gen/Consts.vio Gen/Gates.vio
+Props/C12.vos Props/C12.vok Props/C12.required_vos: Props/C12.v Base/Plan.vos Model/Gates.vos Proofs/Gates.vos Gen/Consts.vos Gen/Gates.vos
